@@ -187,8 +187,13 @@ Definition domain_count (cases : list (N * list hexs)) : list (N * N) :=
          match nth_rx (fst rl) with
          | Some row =>
              let p := row_plan row in
+             let pnz := row_plan_nz row in
              (fst rl, N.of_nat (length (filter (fun h => match slice_of row (unhexs h) with
-                                                         | Some sl => match in_domain p sl with Some _ => true | None => false end
+                                                         | Some sl => match in_domain p sl with
+                                                                      | Some _ => true
+                                                                      | None => match in_domain_pre (rx_re row) pnz sl with
+                                                                                | Some _ => true | None => false end
+                                                                      end
                                                          | None => false end) (snd rl))))
          | None => (fst rl, 0)
          end) cases.
